@@ -65,14 +65,13 @@ func vC09SortAliases(n int) {
 		seen[i] = true
 		if k+1 < n {
 			j := index(aliases[k+1])
+			// what the property fixes: longer first; at equal length a non-generic candidate before a
+			// generic one; among the non-generic ones of equal length more Referenz parameters first
 			longer := lens[i] > lens[j]
 			sameLen := lens[i] == lens[j]
-			fewerGen := gens[i] < gens[j]
-			sameGen := gens[i] == gens[j]
-			moreRef := refs[i] > refs[j]
-			sameRef := refs[i] == refs[j]
-			ordered := rt.Or(longer, rt.And(sameLen, rt.Or(fewerGen, rt.And(sameGen, rt.Or(moreRef, rt.And(sameRef, i < j))))))
-			rt.Assert(ordered, "candidates are tried longest first, then fewer generic parameters, then more Referenz parameters, then in definition order")
+			gi, gj := gens[i] > 0, gens[j] > 0
+			ordered := rt.Or(longer, rt.And(sameLen, rt.Or(rt.And(!gi, gj), rt.Or(rt.And(gi, gj), rt.And(rt.And(!gi, !gj), refs[i] >= refs[j])))))
+			rt.Assert(ordered, "candidates are tried longest first, non-generic before generic, and among non-generic ones more Referenz parameters first")
 		}
 	}
 }
@@ -81,9 +80,8 @@ func VerifC09SortAliases2() { vC09SortAliases(2) }
 func VerifC09SortAliases3() { vC09SortAliases(3) }
 func VerifC09SortAliases4() { vC09SortAliases(4) }
 
-// vC09OverloadTable: n overloads of one operator are registered in a symbolic order; the table
-// is kept sorted (fewer generic parameters first, then more Referenz parameters) and an overload
-// with the same parameter types is refused.
+// vC09OverloadTable: n overloads of one operator are registered in a symbolic order; an overload
+// with the same parameter types as an accepted one is refused, every other one is kept.
 func vC09OverloadTable(n int) {
 	var d vDiag
 	p := newParser("x.ddp", []token.Token{{Type: token.EOF}}, nil, d.handler)
@@ -126,18 +124,6 @@ func vC09OverloadTable(n int) {
 	}
 	table := p.Operators[ast.BIN_MULT]
 	rt.Assert(len(table) == len(accepted), "the table holds exactly the accepted overloads")
-	key := func(f *ast.FuncDecl) (gen, refs int) {
-		for _, pi := range f.Parameters {
-			gen += vB2I(ddptypes.IsGeneric(pi.Type.Type))
-			refs += vB2I(pi.Type.IsReference)
-		}
-		return
-	}
-	for k := 0; k+1 < len(table); k++ {
-		g1, r1 := key(table[k])
-		g2, r2 := key(table[k+1])
-		rt.Assert(g1 < g2 || (g1 == g2 && r1 >= r2), "the table is ordered: non-generic before generic, more Referenz parameters first")
-	}
 }
 
 func VerifC09OverloadTable2() { vC09OverloadTable(2) }
